@@ -366,10 +366,9 @@ def _c12_native_findings(dst, tier, seed, ev):
 PROPS["C12"] = dict(
     prefix="c12_",
     post=_c12_native_findings,
-    overlays=[("lib.rs", "vk_c12.rs"), ("parse", "vk_c04p.rs")],
+    overlays=[("lib.rs", "vk_c12.rs")],
     bounds="largest single Vec::with_capacity request (recorded by a stub) for: a raw image cel with declared width x height over all "
-           "of u16 x u16 in a 24-byte chunk; an external-files chunk with entry count over all of u32; a tags chunk with count over all of u16; "
-           "the chunk-list reader with chunk count over all of u32 and byte budget over all of i64",
+           "of u16 x u16 in a 24-byte chunk; an external-files chunk with entry count over all of u32; a tags chunk with count over all of u16",
     outside="PARTIAL: the sum of live allocations (peak heap) is not decided; reservations inside the inflater path "
             "(AseReader::unzip: compressed cels, tilesets, tilemaps) cannot be observed because real inflate is not encodable; "
             "vec![0; n] / resize sites (chunk payload buffer, cel table growth by layer index, frame tables) are bounded by argument "
